@@ -12,6 +12,7 @@ import (
 	"math"
 	"os"
 	"runtime"
+	"runtime/debug"
 	"runtime/pprof"
 	"slices"
 	"strconv"
@@ -32,11 +33,13 @@ import (
 	"github.com/cosi-project/runtime/pkg/state/impl/store/compression"
 	"github.com/cosi-project/runtime/pkg/state/impl/store/encryption"
 
+	"verif/harness/res"
 	"verif/harness/vk"
 )
 
 func TestMain(m *testing.M) {
 	registerAll()
+	debug.SetGCPercent(400) // the race detector makes every GC cycle (stack shrinking, shadow resets) expensive
 	os.Exit(m.Run())
 }
 
@@ -94,7 +97,7 @@ func cipherFor(key []byte) *encryption.Cipher {
 }
 
 // buildCodecs enumerates every stacking of depth 0..3 of {compression min 0/64/1MiB, encryption} over the protobuf store marshaler.
-func buildCodecs(comp compression.Compressor, key []byte) []*codec {
+func buildCodecs(comp func() compression.Compressor, key []byte) []*codec {
 	ciph := cipherFor(key)
 
 	var out []*codec
@@ -114,7 +117,7 @@ func buildCodecs(comp compression.Compressor, key []byte) []*codec {
 			if l == layE {
 				next.m = encryption.NewMarshaler(cd.m, ciph)
 			} else {
-				next.m = compression.NewMarshaler(cd.m, comp, layerMin[l])
+				next.m = compression.NewMarshaler(cd.m, comp(), layerMin[l])
 			}
 
 			rec(next)
@@ -130,7 +133,45 @@ func buildCodecs(comp compression.Compressor, key []byte) []*codec {
 // declared size up front (see allocProbe). Such inputs are diverted (counted, answered with an error) in the totality and tamper parts.
 type guardZ struct {
 	inner    compression.Compressor
-	diverted atomic.Int64
+	diverted *atomic.Int64
+}
+
+// The zstd compressor of the repository allows two concurrent encodes per instance; the harness spreads its marshalers over a pool of
+// instances so that 16 workers do not queue on one.
+const poolSize = 8
+
+func realPool() func() compression.Compressor {
+	pool := make([]compression.Compressor, poolSize)
+	for i := range pool {
+		pool[i] = compression.ZStd()
+	}
+
+	n := 0
+
+	return func() compression.Compressor {
+		n++
+
+		return pool[n%poolSize]
+	}
+}
+
+var divertedTotal atomic.Int64
+
+func guardedPool() func() compression.Compressor {
+	inner := realPool()
+	pool := make([]compression.Compressor, poolSize)
+
+	for i := range pool {
+		pool[i] = &guardZ{inner: inner(), diverted: &divertedTotal}
+	}
+
+	n := 0
+
+	return func() compression.Compressor {
+		n++
+
+		return pool[n%poolSize]
+	}
 }
 
 const guardLimit = 8 << 20
@@ -152,35 +193,46 @@ func (g *guardZ) Decompress(d []byte) ([]byte, error) {
 
 var zstdMagic = []byte{0x28, 0xb5, 0x2f, 0xfd}
 
-// zstdDeclared over-approximates the largest frame content size / window size declared by any zstd frame header which could start
-// anywhere in d (skippable frames can move the frame start to arbitrary offsets).
+// zstdDeclared walks the frames of d the way a decoder reaches them (frame header, block headers without looking into the blocks,
+// optional checksum, skippable frames) and returns the largest content size / window size declared by any frame header reached.
+// It over-approximates what the real decoder can get to: the walk does not validate block contents.
 func zstdDeclared(d []byte) uint64 {
 	var worst uint64
 
-	for off := 0; ; {
-		i := bytes.Index(d[off:], zstdMagic)
-		if i < 0 {
-			return worst
-		}
+	for len(d) >= 4 {
+		magic := binary.LittleEndian.Uint32(d)
 
-		h := d[off+i+4:]
-		off += i + 1
+		if magic&0xfffffff0 == 0x184d2a50 { // skippable frame
+			if len(d) < 8 {
+				return worst
+			}
 
-		if len(h) < 1 {
+			n := uint64(binary.LittleEndian.Uint32(d[4:]))
+			if 8+n > uint64(len(d)) {
+				return worst
+			}
+
+			d = d[8+n:]
+
 			continue
 		}
 
-		fhd := h[0]
+		if magic != 0xfd2fb528 || len(d) < 5 {
+			return worst
+		}
+
+		fhd := d[4]
 		single := fhd&0x20 != 0
-		pos := 1
+		pos := 5
 
 		if !single {
-			if len(h) > pos {
-				wd := h[pos]
-				base := uint64(1) << (10 + (wd >> 3))
-				worst = max(worst, base+base/8*uint64(wd&7))
+			if len(d) <= pos {
+				return worst
 			}
 
+			wd := d[pos]
+			base := uint64(1) << (10 + (wd >> 3))
+			worst = max(worst, base+base/8*uint64(wd&7))
 			pos++
 		}
 
@@ -204,16 +256,59 @@ func zstdDeclared(d []byte) uint64 {
 			n = 8
 		}
 
-		if n == 0 || len(h) < pos+n {
-			continue
+		if len(d) < pos+n {
+			return worst
 		}
 
-		var buf [8]byte
+		if n > 0 {
+			var buf [8]byte
 
-		copy(buf[:], h[pos:pos+n])
+			copy(buf[:], d[pos:pos+n])
 
-		worst = max(worst, binary.LittleEndian.Uint64(buf[:])+add)
+			worst = max(worst, binary.LittleEndian.Uint64(buf[:])+add)
+		}
+
+		d = d[pos+n:]
+
+		// blocks
+		for {
+			if len(d) < 3 {
+				return worst
+			}
+
+			bh := uint32(d[0]) | uint32(d[1])<<8 | uint32(d[2])<<16
+			d = d[3:]
+
+			size := int(bh >> 3)
+
+			switch (bh >> 1) & 3 {
+			case 1: // RLE
+				size = 1
+			case 3: // reserved
+				return worst
+			}
+
+			if size > len(d) {
+				return worst
+			}
+
+			d = d[size:]
+
+			if bh&1 != 0 {
+				break
+			}
+		}
+
+		if fhd&4 != 0 { // content checksum
+			if len(d) < 4 {
+				return worst
+			}
+
+			d = d[4:]
+		}
 	}
+
+	return worst
 }
 
 // ---- the check -----------------------------------------------------------------------------------------------------------
@@ -222,14 +317,17 @@ func TestC18(t *testing.T) {
 	vk.Run(t, "C18", "exploration", func(c *vk.C) {
 		c.Rule("round trips: seeded generator of resources of 5 kinds (typed with JSON spec, typed with a real protobuf message spec via protobuf.ResourceSpec, dynamically registered protoenc " +
 			"spec, unregistered type carried as *protobuf.Resource with opaque spec bytes) whose namespace/type/id/owner/labels/annotations/finalizers come from a pool of ~230 hostile strings " +
-			"(empty, whitespace, YAML-special scalars and indicators, multi-line, CR/LF, control characters, BOM, NEL/LS/PS, long lines, timestamp/number look-alikes, 1/8 of the cases also invalid UTF-8), " +
-			"versions (undefined, 0, 1, MaxInt64, random), both phases, timestamps (zero time, epoch, sub-second, far past/future, non-UTC whole-minute zones), specs from empty to > 1 MiB " +
-			"(compressible and not); each goes through protobuf wire (vtproto and google.golang.org/protobuf), the store marshaler, every depth-1 wrapper (compression min 0/64/1MiB, encryption) " +
-			"and a seeded selection of the 80 depth-2/3 stackings, YAML of metadata and of the whole resource. totality: seeded mutator (bit flips, truncation, valid prefix + garbage, splices, " +
-			"dictionary tokens, random bytes) over valid encodings fed to all 85 marshaler stackings, YAML metadata / YAMLResource, protobuf.Unmarshal + UnmarshalResource + NewMetadataFromProto + " +
-			"NewAnyFromProto (bytes and structured hostile messages) and the text parsers. tamper: every single-byte change (3 values per position, all 255 for the 14 header bytes) and every " +
-			"truncation of encrypted records, plus wrong keys. distinct = hash of generated case / decoder input; non-trivial = a case with >= 1 hostile string that went through a stacking of depth >= 2, " +
-			"a decoder input that the decoder accepted, or a tamper record")
+			"(empty, whitespace, YAML-special scalars and indicators, multi-line, CR/LF, control characters, BOM, NEL/LS/PS, long lines, timestamp/number look-alikes, random runes; 1/8 of the cases " +
+			"also invalid UTF-8), versions (undefined, 0, 1, MaxInt64, random), both phases, timestamps (zero time, epoch, sub-second, far past/future, non-UTC whole-minute zones), specs from empty " +
+			"to 16 KiB (compressible and not) plus dedicated cases above 1 MiB and cases whose plain encoding is exactly threshold-2..threshold+2 bytes for the thresholds 64 and 1 MiB; each goes " +
+			"through protobuf wire (vtproto and google.golang.org/protobuf), the store marshaler, every depth-1 wrapper (compression min 0/64/1MiB, encryption) and a seeded selection of the 80 " +
+			"depth-2/3 stackings, YAML of metadata and of the whole resource. totality: seeded mutator (bit flips, truncation, valid prefix + garbage, splices, dictionary tokens, line edits, " +
+			"random bytes) over valid encodings fed to all 85 marshaler stackings, YAML metadata / YAMLResource, protobuf.Unmarshal + UnmarshalResource + NewMetadataFromProto + NewAnyFromProto " +
+			"(wire bytes and structured hostile messages: nil/out-of-range timestamps, bad version/phase texts, duplicate finalizers, hostile YAML specs) and the version/phase/RFC 3339 text parsers; " +
+			"an accepted input must re-encode and decode to the same resource. tamper: every position of >= 200 records of stackings containing encryption is changed (3 values per position in " +
+			"the first 64 and last 32 bytes, 1 elsewhere, all 255 for the 14 header bytes of every tenth record), every truncation, insertions/deletions/appends, 4 wrong keys per record. " +
+			"distinct = hash of generated case / decoder input; non-trivial = a generated case with >= 1 hostile string that went through a stacking of depth >= 2, a decoder input that the decoder " +
+			"accepted, or a tamper record")
 		c.Assume("timestamps are drawn from the RFC 3339 domain (years 1..9999, whole-minute zone offsets); YAML timestamps are second-granular by design and compared at 1 s; instants are compared " +
 			"with time.Equal (zone names are not part of the value)")
 		c.Assume("nil-vs-empty maps/slices and finalizer order are not part of resource equality (resource.Equal ignores them); the JSON spec codec of the harness types A-D only gets valid UTF-8")
@@ -239,9 +337,8 @@ func TestC18(t *testing.T) {
 			"compressed_above_threshold", "compressed_below_threshold", "threshold_boundary_cases", "decoder_inputs", "decoder_inputs_accepted", "hostile_proto_messages",
 			"tamper_cases", "wrong_key_cases", "text_forms_checked")
 
-		real := buildCodecs(compression.ZStd(), keyGood)
-		guard := &guardZ{inner: compression.ZStd()}
-		guarded := buildCodecs(guard, keyGood)
+		real := buildCodecs(realPool(), keyGood)
+		guarded := buildCodecs(guardedPool(), keyGood)
 
 		if path := os.Getenv("C18_CPUPROFILE"); path != "" { // debugging aid: vk exits the process, so the standard flag would not flush
 			if f, err := os.Create(path); err == nil {
@@ -262,27 +359,40 @@ func TestC18(t *testing.T) {
 
 		timed("alloc_probe", func() { allocProbe(c) })
 		timed("text_forms", func() { textForms(c) })
-		timed("threshold_boundary", func() { boundaryCases(c, real) })
 
-		// round trips
+		// round trips; the few expensive tasks (specs above 1 MiB, threshold boundaries) are scheduled first so that they overlap with the rest
 		timed("round_trips", func() {
-			parallel(c.N(3000, 400000), func(i int, cnt counts) { roundTripCase(c, i, real, cnt) }, c)
+			bt := boundaryTasks(c, real)
+			nHuge, nRT := c.N(4, 120), c.N(1000, 100000)
+
+			parallel(len(bt)+nHuge+nRT, func(i int, cnt counts) {
+				switch {
+				case i < len(bt):
+					bt[i](cnt)
+				case i < len(bt)+nHuge:
+					hugeCase(c, i-len(bt), real, cnt)
+				default:
+					roundTripCase(c, i-len(bt)-nHuge, real, cnt)
+				}
+			}, c)
+
+			finishBoundary(c)
 		})
 
 		// hostile structured protobuf messages
 		timed("hostile_messages", func() {
-			parallel(c.N(20000, 2000000), func(i int, cnt counts) { hostileMessage(c, i, cnt) }, c)
+			parallel(c.N(6000, 2000000), func(i int, cnt counts) { hostileMessage(c, i, cnt) }, c)
 		})
 
 		// tamper
 		timed("tamper", func() {
-			parallel(c.N(240, 6000), func(i int, cnt counts) { tamperRecord(c, i, guarded, cnt) }, c)
+			parallel(c.N(210, 6000), func(i int, cnt counts) { tamperRecord(c, i, guarded, cnt) }, c)
 		})
 
 		// totality (seeded driver of the native fuzz bodies)
 		timed("totality", func() { totality(c, guarded, c.N(200000, 20000000)) })
 
-		c.Count("zstd_huge_declared_inputs_diverted", int(guard.diverted.Load()+sharedGuard.diverted.Load()))
+		c.Count("zstd_huge_declared_inputs_diverted", int(divertedTotal.Load()))
 		c.Extra("phase_seconds", phases)
 		fmt.Printf("phase seconds: %v\n", phases)
 	})
@@ -361,16 +471,9 @@ func diff(orig, got resource.Resource, secondGranular bool) string {
 func roundTripCase(c *vk.C, i int, codecs []*codec, cnt counts) {
 	rng := c.Rand(uint64(1_000_000 + i))
 	g := newGen(rng)
-	gc := g.resource(sizeHuge, true)
+	gc := g.resource(sizeLarge, true)
 
-	t0 := time.Now()
-
-	defer func() {
-		cnt[fmt.Sprintf("dbg_ms_size_%d_kind_%s", gc.size, gc.kind)] += int(time.Since(t0).Milliseconds())
-		cnt[fmt.Sprintf("dbg_n_size_%d_kind_%s", gc.size, gc.kind)]++
-	}()
-
-	if i < 3 {
+	if i < 2 {
 		c.Sample(gc.describe())
 	}
 
@@ -394,10 +497,7 @@ func roundTripCase(c *vk.C, i int, codecs []*codec, cnt counts) {
 		}
 	}
 
-	picks := 7
-	if gc.size == sizeHuge {
-		picks = 3
-	}
+	picks := 4
 
 	for k := 0; k < picks; k++ {
 		cd := codecs[rng.IntN(len(codecs))]
@@ -653,7 +753,7 @@ func checkYAMLMeta(c *vk.C, gc *genCase, cnt counts) {
 
 		return
 	case err != nil:
-		c.Violation(yamlRejectSig(err), detail(map[string]any{"stage": stage, "error": err.Error()}))
+		c.Violation(yamlCauseSig("yaml-decoder-rejected-own-encoding", err, "", &carrier{md: *md}), detail(map[string]any{"stage": stage, "error": err.Error()}))
 
 		return
 	}
@@ -666,7 +766,7 @@ func checkYAMLMeta(c *vk.C, gc *genCase, cnt counts) {
 
 			c.Violation("yaml-invalid-utf8-silently-changed", detail(map[string]any{"differs": d, "got": got}))
 		} else {
-			c.Violation("yaml-roundtrip-differs", detail(map[string]any{"differs": d, "got": got}))
+			c.Violation(yamlCauseSig("yaml-roundtrip-differs", nil, d, &carrier{md: *md}), detail(map[string]any{"differs": d, "got": got}))
 		}
 
 		return
@@ -686,15 +786,63 @@ func checkYAMLMeta(c *vk.C, gc *genCase, cnt counts) {
 	cnt["roundtrips_yaml"]++
 }
 
-// yamlRejectSig names the rejection of the system's own YAML output. One cause is known and gets its own signature: the YAML
-// library writes a multi-line string whose first line starts with a tab as a block scalar without indentation indicator, which its
-// own scanner refuses ("found a tab character where an indentation space is expected").
-func yamlRejectSig(err error) string {
-	if strings.Contains(err.Error(), "found a tab character where an indentation space is expected") {
-		return "yaml-tab-led-multiline-string-unreadable"
+// yamlCauseSig refines the signature of a YAML failure when the case shows one of two causes which were traced to the YAML library
+// (go.yaml.in/yaml/v4) and are reported as findings of their own:
+//   - a multi-line string whose first line starts with a tab is written as a block scalar without indentation indicator, which the
+//     library's own scanner refuses ("found a tab character where an indentation space is expected");
+//   - a multi-line string whose first non-empty line starts with a space and which is an element of a sequence (finalizers, list
+//     fields of a spec) is written with a wrong indentation indicator: it is read back without its leading spaces, or the document
+//     becomes unreadable.
+//
+// Each cause has one signature for metadata strings (written by Metadata.MarshalYAML) and one for spec fields (written by the library's
+// struct encoder).
+func yamlCauseSig(def string, err error, differs string, r resource.Resource) string {
+	firstLineStarts := func(ss []string, prefix string) bool {
+		for _, e := range ss {
+			if strings.Contains(e, "\n") && strings.HasPrefix(strings.TrimLeft(e, "\r\n"), prefix) {
+				return true
+			}
+		}
+
+		return false
 	}
 
-	return "yaml-decoder-rejected-own-encoding"
+	if err != nil && strings.Contains(err.Error(), "found a tab character where an indentation space is expected") {
+		switch {
+		case firstLineStarts(mdStrings(r.Metadata()), "\t"):
+			return "yaml-tab-led-multiline-string-unreadable"
+		case firstLineStarts(specStrings(r), "\t"):
+			return "yaml-spec-tab-led-multiline-string-unreadable"
+		}
+	}
+
+	if (err != nil || strings.Contains(differs, "finalizers")) && firstLineStarts(*r.Metadata().Finalizers(), " ") {
+		return "yaml-space-led-multiline-list-item-corrupted"
+	}
+
+	if (err != nil || strings.Contains(differs, "spec")) && firstLineStarts(specLists(r), " ") {
+		return "yaml-spec-space-led-multiline-list-item-corrupted"
+	}
+
+	return def
+}
+
+// specLists returns the elements of the list-typed string fields of a spec.
+func specLists(r resource.Resource) []string {
+	switch x := r.(type) {
+	case *P:
+		if v := x.TypedSpec().Value; v != nil {
+			return v.Finalizers
+		}
+	case *Dyn:
+		return x.TypedSpec().List
+	}
+
+	if sp := res.SpecOf(r); sp != nil {
+		return sp.S
+	}
+
+	return nil
 }
 
 func clipText(s string) string {
@@ -762,7 +910,7 @@ func checkYAMLResource(c *vk.C, gc *genCase, cnt counts) {
 
 		return
 	case err != nil:
-		c.Violation(yamlRejectSig(err), detail(map[string]any{"stage": stage, "error": err.Error()}))
+		c.Violation(yamlCauseSig("yaml-decoder-rejected-own-encoding", err, "", gc.r), detail(map[string]any{"stage": stage, "error": err.Error()}))
 
 		return
 	}
@@ -776,22 +924,60 @@ func checkYAMLResource(c *vk.C, gc *genCase, cnt counts) {
 
 		c.Violation("yaml-invalid-utf8-silently-changed", detail(map[string]any{"differs": "metadata." + mdD, "got": describeRes(got)}))
 	case mdD != "":
-		c.Violation("yaml-roundtrip-differs", detail(map[string]any{"differs": "metadata." + mdD, "got": describeRes(got)}))
+		c.Violation(yamlCauseSig("yaml-roundtrip-differs", nil, mdD, gc.r), detail(map[string]any{"differs": "metadata." + mdD, "got": describeRes(got)}))
 	case !specOK && !allValid(specStrings(gc.r)):
 		c.Violation("yaml-spec-invalid-utf8-silently-changed", detail(map[string]any{"differs": "spec", "got_spec": fmt.Sprintf("%+v", got.Spec())}))
 	case !specOK:
-		c.Violation("yaml-resource-spec-roundtrip-differs", detail(map[string]any{"differs": "spec", "got_spec": clipText(fmt.Sprintf("%+v", got.Spec()))}))
+		c.Violation(yamlCauseSig("yaml-resource-spec-roundtrip-differs", nil, "spec", gc.r), detail(map[string]any{"differs": "spec", "got_spec": clipText(fmt.Sprintf("%+v", got.Spec()))}))
 	default:
 		cnt["roundtrips_yaml_resource"]++
 	}
 }
 
+// hugeCase sends one resource with a spec above 1 MiB through the store marshaler, every depth-1 wrapper and a few stackings
+// (this is what puts the 1 MiB compression threshold on its "above" side; no YAML for these).
+func hugeCase(c *vk.C, i int, codecs []*codec, cnt counts) {
+	rng := c.Rand(uint64(2_000_000 + i))
+	g := newGen(rng)
+	g.forceHuge = true
+
+	gc := g.resource(sizeHuge, false)
+	chosen := []*codec{codecs[0]}
+
+	for _, cd := range codecs {
+		if cd.depth() == 1 && (cd.layers[0] == layC1M || cd.layers[0] == layE) {
+			chosen = append(chosen, cd)
+		}
+	}
+
+	for k := 0; k < 1; {
+		if cd := codecs[rng.IntN(len(codecs))]; cd.depth() == 2 && slices.Contains(cd.layers, layC1M) {
+			chosen = append(chosen, cd)
+			k++
+		}
+	}
+
+	for _, cd := range chosen {
+		checkStore(c, gc, cd, cnt)
+	}
+
+	cnt["huge_spec_cases"]++
+
+	c.Case(vk.Hash("huge", i, gc.r.Metadata().String()), gc.hostile > 0)
+}
+
 // ---- threshold boundary ------------------------------------------------------------------------------------------------------
 
-func boundaryCases(c *vk.C, codecs []*codec) {
-	observed := map[string]map[string]bool{}
+var (
+	boundaryMu       sync.Mutex
+	boundaryObserved = map[string]map[string]bool{}
+)
 
-	for _, l := range []layer{layC64, layC1M} {
+// boundaryTasks builds, for the thresholds 64 and 1 MiB, resources whose plain encoding has exactly threshold-2 .. threshold+2 bytes.
+func boundaryTasks(c *vk.C, codecs []*codec) []func(cnt counts) {
+	var tasks []func(cnt counts)
+
+	for _, l := range []layer{layC1M, layC64} {
 		var cd *codec
 
 		for _, x := range codecs {
@@ -801,76 +987,96 @@ func boundaryCases(c *vk.C, codecs []*codec) {
 		}
 
 		T := layerMin[l]
-		observed[strconv.Itoa(T)] = map[string]bool{}
 
-		for _, delta := range []int{-2, -1, 0, 1, 2} {
-			want := T + delta
+		deltas := []int{-2, -1, 0, 1, 2}
+		if l == layC1M {
+			deltas = []int{-1, 0, 1}
+		}
 
-			// adjust the opaque spec length until the plain encoding has exactly the wanted length
-			car := &carrier{md: resource.NewMetadata("", "t", "", resource.VersionUndefined)}
-			car.md.SetCreated(time.Time{})
-			car.md.SetUpdated(time.Time{})
-
-			specLen := max(1, want-40)
-
-			var pr *protobuf.Resource
-
-			ok := false
-
-			for iter := 0; iter < 20; iter++ {
-				car.spec.B = bytes.Repeat([]byte{'q'}, specLen)
-
-				var err error
-
-				if pr, err = protobuf.FromResource(car, protobuf.WithoutYAML()); err != nil {
-					c.Inconclusive("boundary carrier: " + err.Error())
-
-					return
-				}
-
-				plain, err := codecs[0].m.MarshalResource(pr)
-				if err != nil {
-					c.Inconclusive("boundary encode: " + err.Error())
-
-					return
-				}
-
-				if len(plain) == want {
-					ok = true
-
-					break
-				}
-
-				specLen += want - len(plain)
-				if specLen < 1 {
-					break
-				}
-			}
-
-			if !ok {
-				c.Count("threshold_boundary_unreachable", 1)
-
-				continue
-			}
-
-			gc := &genCase{r: pr, kind: kindRaw, mdValid: true, allValid: true}
-			cnt := counts{}
-
-			checkStore(c, gc, cd, cnt)
-
-			b, _ := cd.m.MarshalResource(pr)
-			observed[strconv.Itoa(T)][strconv.Itoa(want)] = len(b) > 1 && b[0] == 0
-
-			for k, v := range cnt {
-				c.Count(k, v)
-			}
-
-			c.Count("threshold_boundary_cases", 1)
-			c.Case(vk.Hash("boundary", T, delta), false)
+		for _, delta := range deltas {
+			tasks = append(tasks, func(cnt counts) { boundaryCase(c, codecs[0], cd, T, delta, cnt) })
 		}
 	}
 
-	c.Extra("threshold_boundary_compressed", observed)
+	return tasks
+}
+
+func boundaryCase(c *vk.C, plainCodec, cd *codec, T, delta int, cnt counts) {
+	want := T + delta
+
+	// adjust the opaque spec length until the plain encoding has exactly the wanted length
+	car := &carrier{md: resource.NewMetadata("", "t", "", resource.VersionUndefined)}
+	car.md.SetCreated(time.Time{})
+	car.md.SetUpdated(time.Time{})
+
+	specLen := max(1, want-40)
+
+	var pr *protobuf.Resource
+
+	ok := false
+
+	for iter := 0; iter < 12; iter++ {
+		car.spec.B = bytes.Repeat([]byte{'q'}, specLen)
+
+		var err error
+
+		if pr, err = protobuf.FromResource(car, protobuf.WithoutYAML()); err != nil {
+			c.Inconclusive("boundary carrier: " + err.Error())
+
+			return
+		}
+
+		plain, err := plainCodec.m.MarshalResource(pr)
+		if err != nil {
+			c.Inconclusive("boundary encode: " + err.Error())
+
+			return
+		}
+
+		if len(plain) == want {
+			ok = true
+
+			break
+		}
+
+		specLen += want - len(plain)
+		if specLen < 1 {
+			break
+		}
+	}
+
+	if !ok {
+		cnt["threshold_boundary_unreachable"]++
+
+		return
+	}
+
+	gc := &genCase{r: pr, kind: kindRaw, mdValid: true, allValid: true}
+
+	checkStore(c, gc, cd, cnt)
+
+	b, _ := cd.m.MarshalResource(pr)
+
+	boundaryMu.Lock()
+
+	if boundaryObserved[strconv.Itoa(T)] == nil {
+		boundaryObserved[strconv.Itoa(T)] = map[string]bool{}
+	}
+
+	boundaryObserved[strconv.Itoa(T)][strconv.Itoa(want)] = len(b) > 1 && b[0] == 0
+
+	boundaryMu.Unlock()
+
+	cnt["threshold_boundary_cases"]++
+
+	c.Case(vk.Hash("boundary", T, delta), false)
+}
+
+func finishBoundary(c *vk.C) {
+	boundaryMu.Lock()
+	defer boundaryMu.Unlock()
+
+	c.Extra("threshold_boundary_compressed", boundaryObserved)
 }
 
 // ---- text forms ----------------------------------------------------------------------------------------------------------------
@@ -1032,8 +1238,20 @@ func allocProbe(c *vk.C) {
 	in = binary.LittleEndian.AppendUint64(in, declared)
 	in = append(in, 1, 0, 0)
 
-	if zstdDeclared(in[2:]) != declared {
-		c.Violation("harness-guard-misparses-zstd-header", map[string]any{"got": zstdDeclared(in[2:])})
+	// self-checks of the guard: the probe frame alone, behind a valid frame, behind a skippable frame, and a valid frame alone
+	valid, _ := compression.ZStd().Compress(nil, bytes.Repeat([]byte("some payload "), 50))
+	skippable := append([]byte{0x5a, 0x2a, 0x4d, 0x18, 3, 0, 0, 0}, 1, 2, 3)
+
+	for name, tc := range map[string]struct {
+		in   []byte
+		want uint64
+	}{
+		"probe": {in[2:], declared}, "valid+probe": {append(slices.Clone(valid), in[2:]...), declared}, "skippable+probe": {append(slices.Clone(skippable), in[2:]...), declared},
+		"valid+skippable+valid+probe": {slices.Concat(valid, skippable, valid, in[2:]), declared}, "valid": {valid, 650}, "garbage+probe": {append([]byte{1, 2, 3}, in[2:]...), 0},
+	} {
+		if got := zstdDeclared(tc.in); got != tc.want && !(name == "valid" && got <= 1<<20) {
+			c.Violation("harness-guard-misparses-zstd-header", map[string]any{"case": name, "got": got, "want": tc.want, "input_hex": hexClip(tc.in)})
+		}
 	}
 
 	m := compression.NewMarshaler(store.ProtobufMarshaler{}, compression.ZStd(), 0)
@@ -1149,6 +1367,10 @@ func tamperRecord(c *vk.C, i int, codecs []*codec, cnt counts) {
 	for pos := range rec {
 		xors := []byte{0x01, 0x80, byte(1 + rng.IntN(255))}
 
+		if pos >= 64 && pos < len(rec)-32 { // the body of longer records: one change per position
+			xors = xors[2:]
+		}
+
 		if pos < 14 && i%10 == 0 {
 			xors = xors[:0]
 			for x := 1; x < 256; x++ {
@@ -1215,14 +1437,14 @@ func tamperRecord(c *vk.C, i int, codecs []*codec, cnt counts) {
 		}
 	}
 
-	if i < 2 {
+	if i < 1 {
 		c.Sample(map[string]any{"mode": "tamper", "codec": cd.name, "record_len": len(rec), "strict": strict})
 	}
 
 	c.Case(vk.Hash("tamper", i, cd.name, len(rec)), true)
 }
 
-// rebuild constructs the same stacking with another key (fresh guarded compressor).
+// rebuild constructs the same stacking with another key (guarded compressors).
 func rebuild(cd *codec, key []byte) store.Marshaler {
 	var m store.Marshaler = store.ProtobufMarshaler{}
 
@@ -1232,11 +1454,25 @@ func rebuild(cd *codec, key []byte) store.Marshaler {
 		if l == layE {
 			m = encryption.NewMarshaler(m, ciph)
 		} else {
-			m = compression.NewMarshaler(m, sharedGuard, layerMin[l])
+			m = compression.NewMarshaler(m, sharedGuard(), layerMin[l])
 		}
 	}
 
 	return m
 }
 
-var sharedGuard = &guardZ{inner: compression.ZStd()}
+var (
+	sharedGuardMu   sync.Mutex
+	sharedGuardPool func() compression.Compressor
+)
+
+func sharedGuard() compression.Compressor {
+	sharedGuardMu.Lock()
+	defer sharedGuardMu.Unlock()
+
+	if sharedGuardPool == nil {
+		sharedGuardPool = guardedPool()
+	}
+
+	return sharedGuardPool()
+}
